@@ -7,49 +7,52 @@ import WR.C01.Lemmas
 namespace WR.Props.C01
 open WR.C01
 
-/-! ## root discovery (tree.go:53-64)
+/-! ## root discovery (tree.go:60-68) -/
 
-Full statement (FALSE on the current code — a comment before `<html>` is picked as the root and
-`BuildFormattingStructure` then indexes an empty box list):
-
-    theorem root_found (dt : Bool) (pre post : Nat) :
-        ∃ i, pickRoot (parseShape dt pre post) = .node i (.element "html")
--/
-
-/-- Proved part: without a comment before `<html>` the element is found, with or without doctype
-    and whatever follows. -/
-theorem root_found_partial (dt : Bool) (post : Nat) :
-    ∃ i, pickRoot (parseShape dt 0 post) = .node i (.element "html") := by
-  cases dt <;> simp [parseShape, pickRoot]
-
-/-- Negation witnesses of the full statement (both replayed against the real code by the harness):
-    `<!-- c --><html>` and `<!DOCTYPE html><!-- c --><html>` select the comment. -/
-theorem root_found_fails_on_leading_comment :
-    pickRoot (parseShape false 1 0) = .node 0 .comment ∧ pickRoot (parseShape true 1 0) = .node 1 .comment := by
-  decide
-
-/-- A document node whose only child is a doctype makes `NewHTML` dereference nil (not reachable
-    under the `html.Parse` shape assumption, which always supplies an `html` element). -/
-theorem root_doctype_only_is_nil_deref : pickRoot [.doctype] = .nilDeref := by decide
-
-/-- The proposed repair satisfies the full statement: for every shape `html.Parse` produces the
-    element `html` is returned. -/
-theorem root_found_fixed (dt : Bool) (pre post : Nat) :
-    ∃ i, pickRootFixed (parseShape dt pre post) = .node i (.element "html") := by
+/-- `root_found`: for every child list `html.Parse` can produce (optional doctype, any number of
+    comments, the element `html`, any number of comments) `NewHTML` returns the element. -/
+theorem root_found (dt : Bool) (pre post : Nat) :
+    ∃ i, pickRoot (parseShape dt pre post) = .node i (.element "html") := by
   cases dt
   · refine ⟨0 + pre, ?_⟩
-    simp only [parseShape, pickRootFixed, Bool.false_eq_true, if_false, List.nil_append, List.append_assoc, List.singleton_append]
-    exact pickRootFixed_go_comments 0 pre _ "html"
+    simp only [parseShape, pickRoot, Bool.false_eq_true, if_false, List.nil_append, List.append_assoc, List.singleton_append]
+    exact pickRoot_go_comments 0 pre _ "html"
   · refine ⟨1 + pre, ?_⟩
-    simp only [parseShape, pickRootFixed, if_true, List.append_assoc, List.cons_append, List.nil_append, pickRootFixed.go]
-    exact pickRootFixed_go_comments 1 pre _ "html"
+    simp only [parseShape, pickRoot, if_true, List.append_assoc, List.cons_append, List.nil_append, pickRoot.go]
+    exact pickRoot_go_comments 1 pre _ "html"
 
-/-- ... and both functions agree whenever no comment precedes the element. -/
-theorem root_fixed_agrees (dt : Bool) (post : Nat) :
-    pickRootFixed (parseShape dt 0 post) = pickRoot (parseShape dt 0 post) := by
-  cases dt <;> simp [parseShape, pickRoot, pickRootFixed, pickRootFixed.go]
+/-- the index is the position of the element: nothing before it is ever returned -/
+theorem root_found_index (dt : Bool) (pre post : Nat) :
+    pickRoot (parseShape dt pre post) = .node ((if dt then 1 else 0) + pre) (.element "html") := by
+  cases dt
+  · simp only [parseShape, pickRoot, Bool.false_eq_true, if_false, List.nil_append, List.append_assoc, List.singleton_append]
+    exact pickRoot_go_comments 0 pre _ "html"
+  · simp only [parseShape, pickRoot, if_true, List.append_assoc, List.cons_append, List.nil_append, pickRoot.go]
+    exact pickRoot_go_comments 1 pre _ "html"
 
-example : pickRoot (parseShape true 0 2) = .node 1 (.element "html") := by decide
+/-- never a nil dereference: without any element the result is the error value -/
+theorem root_no_element_is_error (ks : List Kind) (h : ∀ k ∈ ks, ∀ t, k ≠ .element t) : pickRoot ks = .error := by
+  unfold pickRoot
+  generalize 0 = i
+  induction ks generalizing i with
+  | nil => rfl
+  | cons k ks ih =>
+    cases k with
+    | element t => exact absurd rfl (h _ (by simp) t)
+    | _ => simp only [pickRoot.go]; exact ih (fun k hk => h k (by simp [hk])) _
+
+/-- Record of the defect found by the proof attempt and repaired in d4860cc: the former code
+    selected a leading comment (both inputs are corpus cases replayed on every run). -/
+theorem root_found_failed_before_d4860cc :
+    pickRootBefore (parseShape false 1 0) = .node 0 .comment ∧ pickRootBefore (parseShape true 1 0) = .node 1 .comment := by
+  decide
+
+/-- old and new code agree whenever no comment precedes the element -/
+theorem root_before_agrees (dt : Bool) (post : Nat) :
+    pickRootBefore (parseShape dt 0 post) = pickRoot (parseShape dt 0 post) := by
+  cases dt <;> simp [parseShape, pickRoot, pickRootBefore, pickRoot.go]
+
+example : pickRoot (parseShape true 2 2) = .node 3 (.element "html") := by decide
 
 /-! ## page loop (pages.go makeAllPages / remakePage) -/
 
